@@ -12,6 +12,7 @@ pub mod engine;
 pub mod evidence;
 pub mod findings;
 
+pub mod cbor;
 pub mod cmodel;
 pub mod skel;
 pub mod syngen;
